@@ -1,6 +1,7 @@
 import KinModel.Drv.Util
 import KinModel.Style
 import KinModel.StyleNest
+import KinModel.StyleContent
 open Lean
 namespace KinModel.Drv.C05
 open KinModel.Drv KinModel.Style
@@ -273,6 +274,63 @@ def handleNest (j : Json) : Json :=
     ("unsupported", Json.bool unsupported),
     ("branches", jstrs branches)]
 
+/-! ### content-described parameters (mode "content") -/
+
+def scalarPV : Json → Option PV
+  | .bool b => some (.bool b)
+  | .num n => some (.num n.mantissa (- Int.ofNat n.exponent))
+  | .str s => some (.str (chars s))
+  | _ => none
+
+/-- a JSON value as a `Val`; `none`: a shape `Val` cannot hold (nested containers, null inside a container) -/
+def jsonVal : Json → Option Val
+  | .null => some .nil
+  | .arr xs => (xs.toList.mapM scalarPV).map Val.arr
+  | .obj kvs => ((kvs.toList.mapM (fun (k, v) => (scalarPV v).map (fun pv => (chars k, pv))))).map Val.obj
+  | j => (scalarPV j).map Val.prim
+
+/-- json.Unmarshal of one text, as far as the model goes -/
+def unmText (t : Str) : Option Val :=
+  match Json.parse (text t) with
+  | .ok j => jsonVal j
+  | .error _ => none
+
+def unsupportedJSON (t : Str) : Bool :=
+  match Json.parse (text t) with
+  | .ok j => (jsonVal j).isNone
+  | .error _ => false
+
+def handleContent (j : Json) : Json :=
+  let loc := parseLoc (getStr j "in")
+  let name := chars (getStr j "name")
+  let sj := getD j "schema" .null
+  let sch : Option Sch := if sj.isNull then none else some (parseSch sj)
+  let p : CParam := ⟨loc, name, getBool j "required", getBool j "allowEmpty", (getArr j "media").map (fun m => chars (asStr m)), sch⟩
+  let r := parseReq j
+  let vm := validateContent unmText (visitSch enumHitImpl deepEqImpl) false p r
+  let vs := validateContent unmText (visitSch enumHitSpec enumHitSpec) true p r
+  let vals := (contentValues loc name r).getD []
+  -- several values: every item must be a scalar for the model's `Val.arr`
+  let itemNotScalar (t : Str) : Bool := match Json.parse (text t) with
+    | .ok j => (scalarPV j).isNone
+    | .error _ => false
+  let unsupported := vals.any unsupportedJSON || (vals.length ≠ 1 && vals.any itemNotScalar)
+  let outKind := match decodeContent unmText true p r with
+    | .absent => "absent" | .err => "error" | .missingErr => "missingErr"
+    | .val .nil => "null" | .val (.prim (.str _)) => "string" | .val (.prim _) => "scalar" | .val (.arr _) => "array" | .val _ => "object"
+  let branches :=
+    ["mode.content", s!"content.in.{getStr j "in"}", s!"content.values.{min vals.length 3}", s!"content.decoded.{outKind}",
+     s!"content.verdict.{verdictStr vm}", (if sch.isNone then "content.noSchema" else "content.schema")] ++
+    (if unsupported then ["unsupported.notCompared"] else []) ++
+    (if vm ≠ vs then ["model≠spec"] else [])
+  jobj [
+    ("model", jobj [("value", Json.null), ("found", Json.bool (contentValues loc name r).isSome), ("err", Json.null), ("verdict", verdictStr vm)]),
+    ("spec", jobj [("value", Json.null), ("found", Json.bool (contentValues loc name r).isSome), ("err", Json.null), ("verdict", verdictStr vs),
+                   ("enc_ok", Json.bool true), ("oracle", Json.bool false), ("decode_agrees", Json.bool true)]),
+    ("excl", jstrs ((if ContentMissing p r then ["ContentMissing"] else []) ++ (if ContentCookieAbsent p r then ["ContentCookieAbsent"] else []))),
+    ("unsupported", Json.bool unsupported),
+    ("branches", jstrs branches)]
+
 def handleFlat (j : Json) : Json :=
   let cell : Cell := ⟨parseLoc (getStr j "in"), parseSty (getStr j "style"), getBool j "explode"⟩
   let name := chars (getStr j "name")
@@ -334,6 +392,7 @@ def handleFlat (j : Json) : Json :=
     ("branches", jstrs branches)]
 
 def handle (j : Json) : Json :=
-  if getStr (getD j "schema" .null) "k" == "nest" then handleNest j else handleFlat j
+  if getStr j "mode" == "content" then handleContent j
+  else if getStr (getD j "schema" .null) "k" == "nest" then handleNest j else handleFlat j
 
 end KinModel.Drv.C05
